@@ -95,6 +95,7 @@ type jNFAState struct {
 	ID      int        `json:"id"`
 	Accept  bool       `json:"accept"`
 	NG      bool       `json:"ng"`
+	Rule    int        `json:"rule"`
 	HasActs bool       `json:"has_acts"`
 	Acts    []jLexAct  `json:"acts"`
 	Pos     int        `json:"pos"`
@@ -106,6 +107,7 @@ type jDFAState struct {
 	ID      int        `json:"id"`
 	Accept  bool       `json:"accept"`
 	NG      bool       `json:"ng"`
+	NGAcc   bool       `json:"ng_accept"`
 	NFA     []int      `json:"nfa"`
 	Trans   [][3]int64 `json:"trans"`
 	HasActs bool       `json:"has_acts"`
@@ -275,7 +277,7 @@ func dump(dir string) *jDump {
 		}
 		sort.Slice(order, func(i, j int) bool { return order[i].ID < order[j].ID })
 		for _, s := range order {
-			js := jNFAState{ID: int(s.ID), Accept: s.Accept, NG: s.NonGreedy}
+			js := jNFAState{ID: int(s.ID), Accept: s.Accept, NG: s.NonGreedy, Rule: s.Rule}
 			if a, ok := s.Data.(*mode.Actions); ok {
 				js.HasActs = true
 				js.Acts = lexActs(a)
@@ -299,7 +301,7 @@ func dump(dir string) *jDump {
 			jm.NFA = append(jm.NFA, js)
 		}
 		for _, s := range m.DFA.States {
-			js := jDFAState{ID: int(s.ID), Accept: s.Accept, NG: s.NonGreedy}
+			js := jDFAState{ID: int(s.ID), Accept: s.Accept, NG: s.NonGreedy, NGAcc: s.NonGreedyAccept}
 			for _, ns := range s.NFAStates {
 				js.NFA = append(js.NFA, int(ns.ID))
 			}
